@@ -113,4 +113,33 @@ PROPS = {
         "trusted_base": TB_COMMON,
         "assumptions": ["the member list is shorter than usize::MAX (a Vec cannot be longer)", "B5: 'stable' includes no forgetting in between (swap_remove can move an unvisited record in front of the cursor)"],
     },
+    "C07": {
+        "level_text": "Coq theorems: (1) send_message_shape - from any well-formed state send_message either fails with Encode leaving no trace or emits exactly one datagram = header(current identity, incarnation, dst, msg) ++ optional (u16 count ++ that many encoded members) ++ exactly-framed non-empty items, at most max_packet_size long, kind rules respected, a Feed listing only active members other than the receiver; (2) the invariant pass instantiated with this property: every datagram emitted by ANY call from a well-formed state (all inputs, all oracles) has this shape and parses with an independent grammar (WireM.v, written from payload.rs) back to exactly these components; (3) peer_accepts - a peer with the same codec whose packet size admits such a datagram never answers Decode / MalformedPacket / DataTooBig. Parametric in the codec (prefix round-trip law), hence fixed- and variable-length identities. Refinement scope sends.bytes.*; independent Rust parser + delivery-to-peer falsifier over a packet size sweep.",
+        "technique": "Coq proof (print/parse round trip, Hoare-style invariant pass, error-set analysis) + per-step refinement check",
+        "scope": {"inputs": "*", "components": ["sends.bytes", "sends.count", "sends.dst", "result"]},
+        "refine": refine(),
+        "falsify": {"quick": 400, "thorough": 20000},
+        "trusted_base": TB_COMMON + ["CodecLaws: prefix round-trip dec(enc x ++ r) = (x, r) for headers and members, assumed of the user codec for every value of the identity type; proved for the executable codec on every value a Rust VId/Member/Header can hold (ConcreteLaws.c_dec_enc_hdr / c_dec_enc_mem)", "ExtraLaws"],
+        "partial": "the length bound is against the max_packet_size in force when the datagram was built (set_config itself sends nothing); the bundled serde codecs are covered by C20 and by the falsifier, not by this theorem",
+        "assumptions": ["B6: max_packet_size <= 65535 in the theorem", "handler errors are the handler's (excluded from 'accepted')"],
+    },
+    "C15": {
+        "level_text": "Coq theorems: every reachable state holds at most one pending update per address, each with >= 1 transmission left and carrying exactly an encoded member; add_or_replace keeps only the latest per address; one fill = visit in pop order (a permutation sorted by (transmissions left, length), highest first, for every tie-break), write whole entries, decrement written ones by exactly one, drop at zero, leave unwritten ones unchanged; maximality (an unwritten entry exceeds the room left unless the 65535 item budget ran out); over any sequence of fills an entry is written at most its transmissions-left times (induction over the sequence, per-key accounting); Feed/Announce/TurnUndead/Broadcast sends and apply with broadcasting disabled leave the backlog untouched. Ledger falsifier on the real crate; refinement scope updates_backlog + update bytes.",
+        "technique": "Coq proof (list/permutation reasoning on the heap model, induction over fill sequences) + per-step refinement check + per-entry ledger on the implementation",
+        "scope": {"inputs": "*", "components": ["updates_backlog", "sends.bytes.updates", "sends.bytes.malformed"]},
+        "refine": refine(),
+        "falsify": {"quick": 500, "thorough": 40000},
+        "trusted_base": TB_COMMON + ["std BinaryHeap modelled as: pops a maximum of (remaining_tx, len); tie order = oracle (theorems hold for every tie order)"],
+        "assumptions": ["the 'exactly max_transmissions' clause is per entry: a re-accepted identical update restarts its count (as the property's 'superseded' clause allows)"],
+    },
+    "C16": {
+        "level_text": "Coq theorems: reachable custom backlog entries have >= 1 transmission left and 1..65535 bytes; accepting a key inserts the item byte for byte with max_transmissions and leaves nothing it invalidates in the backlog (so an invalidated item can never be sent again - items only leave the backlog through fill); the custom section = whole items with exact u16 prefixes in priority order, same accounting as C15; the datagram shape theorem gates items by kind and should_add_broadcast_data; on the receiving side handle_custom_broadcasts on the framed items IS forM_ items recv_item: the handler sees exactly the items sent, in order, once each, with the sender; broadcast() with an empty backlog does nothing. Arbitrary handler / invalidation relation / predicate (type-class parameters, no hypotheses). Ledger + receiver falsifier on the real crate; refinement scope custom_backlog, custom bytes, handler state.",
+        "technique": "Coq proof (equational reasoning on the framing loop, backlog lemmas) + per-step refinement check + sender/receiver ledger on the implementation",
+        "scope": {"inputs": "*", "components": ["custom_backlog", "sends.bytes.custom", "sends.bytes.malformed", "handler"]},
+        "refine": refine(),
+        "falsify": {"quick": 500, "thorough": 40000},
+        "trusted_base": TB_COMMON,
+        "partial": "the per-item transmission bound over histories is the C15 tx_bound lemma instantiated per fill (the custom key type has no decidable equality in general); 'broadcast() sends at most num_indirect_probes Broadcast datagrams and stops when drained' is checked by the falsifier and the refinement check",
+        "assumptions": ["items longer than 65535 bytes are rejected by add_broadcast (fix 871834b)"],
+    },
 }
